@@ -50,7 +50,9 @@ partial def parseRS (j : Json) : RS :=
   RS.mk (parseTy (getStr j "ty")) (getBool j "nullable") (getBool j "ro") (getBool j "wo") (getNat j "minLen")
     (optInt j "max") props ((strs (getArr j "required")).map String.toList) (optBool j "addl") items
     nt ((getArr j "oneOf").map parseRS) ((getArr j "anyOf").map parseRS) ((getArr j "allOf").map parseRS)
-    (if isNull j "dflt" then none else some (parseV (getD j "dflt" Json.null)))
+    { dflt := if isNull j "dflt" then none else some (parseV (getD j "dflt" Json.null)),
+      minProps := getNat j "minProps",
+      maxProps := if isNull j "maxProps" then none else some (getNat j "maxProps") }
 
 def parseJsonView (j : Json) (k : String) : Option V :=
   if isNull j k then none else some (parseV (getD (getD j k Json.null) "v" Json.null))
@@ -143,6 +145,11 @@ partial def dfltKinds (s : RS) : List String :=
   (if hasDfltL s.oneOf || hasDfltL s.anyOf || hasDfltL s.allOf then ["dflt.in.composition"] else []) ++
   ((s.oneOf ++ s.anyOf ++ s.allOf).map dfltKinds).flatten
 
+partial def hasCount (s : RS) : Bool :=
+  s.minProps != 0 || s.maxProps.isSome || s.props.any (fun kp => hasCount kp.2) ||
+  (match s.items with | some it => hasCount it | none => false) ||
+  (match s.nt with | some n => hasCount n | none => false) || (s.oneOf ++ s.anyOf ++ s.allOf).any hasCount
+
 def decLabel (reg : List (Str × DecK)) (ct : Str) : String :=
   match lookup (base ct) reg with
   | none => "dec.unsupported"
@@ -193,6 +200,8 @@ def handle (j : Json) : Json :=
        (if lookup (base ct) registry == some .urlencoded && !(sel.map (·.encs.isEmpty)).getD true then ["form.encoding"] else []) ++
        (if hasRO s && exro then ["opt.exro"] else []) ++
        (if visit exro s v != visit (!exro) s v then ["opt.exro.decides"] else []) ++
+       (if hasCount s then ["schema.propertyCount"] else []) ++
+       (if hasCount s && ds && firesD exro s v then ["dflt.fires.counted"] else []) ++
        (if hasDflt s then (if ds then ["dflt.declared"] else ["dflt.declared.skipped"]) else []) ++
        (if hasDflt s then (dfltKinds s).eraseDups else []) ++
        (if hasDflt s && ds && roGuard s v && !exro then ["dflt.readOnly.guarded"] else []) ++
